@@ -15,8 +15,8 @@ i = s.index("### 0.7 Seeded property-breaking changes")
 j = s.index("### 0.8 Behaviour-preserving rewrites")
 new = f'''### 0.7 Seeded property-breaking changes and the checks that catch them
 
-{len(rows)} changes written by fresh sub-agents that saw only one property's text and a scratch worktree, in ten rounds
-(`seeded/Cxx`, `Cxxb` … `Cxxj`; `C20g` was dropped again: it makes the repository's own MCMC test fail in some runs). Round two was told what round one had done and asked for a different clause / site /
+{len(rows)} changes written by fresh sub-agents that saw only one property's text and a scratch worktree, in eleven rounds
+(`seeded/Cxx`, `Cxxb` … `Cxxk`; `C20g` was dropped again: it makes the repository's own MCMC test fail in some runs). Round two was told what round one had done and asked for a different clause / site /
 trigger; every later round was shown what all earlier ones need in order to manifest and was given a theme: round three the
 **glue** (construction paths and entry points, parameter handling and defaults, helper modules such as the motif generators,
 representation conversions, behaviour after several calls on one object); round four **boundaries and numerics**
@@ -31,7 +31,8 @@ re-entrancy from callbacks, setters that do not invalidate, silent normalisation
 orientation and order asymmetries, partial failure** (a statement one indentation level off, similar names exchanged, `=` for `+=`,
 `break` for `continue`, (u,v) vs (v,u), sorted vs given order, an early return that drops a case); round ten **language and library semantics, numerical
 or combinatorial reformulation, docstring-driven fixes** (`round` vs `int`, negative slice starts, `list.remove`, truthiness of
-names, `np.prod` over ints, `k*(1/N)` vs `k/N`, closed forms with a wrong singular branch).
+names, `np.prod` over ints, `k*(1/N)` vs `k/N`, closed forms with a wrong singular branch); round eleven had **no theme** again (the agents were asked for
+the most realistic, hardest-to-notice slip and for a clause of the statement that the ten earlier changes had left alone).
 Each was confirmed here in a scratch worktree (compiles, the whole pinned test suite of 47 tests passes — `tools/seed_tests.py` —, `demo.py` exits 0 on the
 unchanged tree and 1 with the change) and is kept as `seeded/<id>/{{patch.diff,demo.py,meta.json}}`. `tools/regress.py` applies
 every one of them to a scratch worktree and runs the quick check of the property it breaks: **{len(rows)} of {len(rows)} exit 1 with
@@ -48,7 +49,9 @@ same class, a distribution / cover / target replaced or edited after constructio
 evaluation in another order; in round nine only 4 of 20 were missed: multi-orbit custom motifs in C03, the dispatched sampled
 loader in C06, a phi sweep on one evaluator in C15, a NaN member in C20; in round ten 5 of 20: callbacks with a varying edge count (C01/C02),
 the sequence edited between the two conversions (C04), double-precision runs at large degrees (C07), integer count targets (C12),
-the exact float quotient (C18)), twice a sharper observation (C03: motifs
+the exact float quotient (C18); in round eleven 5 of 20: callbacks that reuse one list object (C02), 1-cliques (C08), the number
+of accepted swaps at the end of a run (C12), the same motif with other neighbour values on one evaluator (C15), coded topology
+keys in labels (C17)), twice a sharper observation (C03: motifs
 as built, not only callback inputs; C13: the network must be untouched by the extraction).
 
 ''' + "\n".join(out) + "\n\n"
